@@ -21,7 +21,7 @@ RULE = (
     "{1..9} u {k*c, k*c+-1} x chunksize {1,2,3,None} x seed {0,1,12345} x attributes {none, weights, redshifts, both; "
     "value i encodes source row i} x workers {1, 2 (virtual pool, all delivery orders)}; history: every sequence of "
     "length <= 3 over {direct call, probe, full pass, abandoned partial pass} before the observed pass, and repeated "
-    "Catalog.from_random with one generator; the same histories with a probe as the observed operation; explicit reseeding over {0,1,12345}^2 observed directly, through a reader created before, and through its probe; attribute columns given as pandas Series with a permuted index (both, or one next to a plain array); attribute tables with NaN / inf in different rows of weights and redshifts (pairs stay rows of the input); attribute tables of 1,2,3,7 rows: every row reachable (index range at the rng seam and 300*m real draws); probe: get_probe(s) for s in 1..n x chunksize {1,2,3,None} returns exactly s points, reproducibly; dataframe: generate_dataframe(n, degrees {True, False, default}) on 3 windows x attributes {none, wz} equals the direct draw of a generator with the same seed in that unit and advances the stream alike; uniformity: the generator's rng replaced by a stub returning an exact "
+    "Catalog.from_random with one generator; the same histories with a probe as the observed operation; explicit reseeding over {0,1,12345}^2 observed directly, through a reader created before, and through its probe; attribute columns given as pandas Series with a permuted index (both, or one next to a plain array); attribute tables with NaN / inf in different rows of weights and redshifts (pairs stay rows of the input); attribute tables of 1,2,3,7 rows: every row reachable (index range at the rng seam and 300*m real draws); probe: get_probe(s) for s in 1..n x chunksize {1,2,3,None} returns exactly s points, reproducibly; patchnum: from_random(n in {20,33}, patch_num=2, probe_size below / equal to / above n) holds exactly n points or refuses the oversized probe; dataframe: generate_dataframe(n, degrees {True, False, default}) on 3 windows x attributes {none, wz} equals the direct draw of a generator with the same seed in that unit and advances the stream alike; uniformity: the generator's rng replaced by a stub returning an exact "
     "regular grid, the points must satisfy ra = lo+u(hi-lo), sin(dec) = sin(lo)+v(sin(hi)-sin(lo)). Oracle: exact "
     "count, every point inside the window, weight and redshift name the same source row, records identical to a "
     "fresh generator with that seed. Non-trivial: size not a multiple of the chunk size, or a non-empty history."
@@ -89,6 +89,10 @@ def cases(tier, seed):
             out.append(dict(part="probe", chunksize=c, n=n, size=size, seed=12345, attrs="wz"))
     for reps, c in itertools.product((2, 3), (2, None)):
         out.append(dict(part="refrom", reps=reps, chunksize=c, n=5, seed=7))
+    # generated centres: the probe drawn for them may be smaller than, equal to or larger than the catalog (the latter
+    # may be refused): the catalog still holds exactly n points of a fresh generator's stream
+    for n, probe, c in itertools.product((20, 33), (20, 21, 33, 34, 100), (None, 8)):
+        out.append(dict(part="patchnum", n=n, probe=probe, chunksize=c, seed=4))
     # the data-frame form of a draw: same points as the direct call from the same generator state, in either unit
     for win, attrs, degrees, n in itertools.product(("box", "scap", "wrap"), ("", "wz"), (True, False, None), (1, 6)):
         if win in WINDOWS:
@@ -420,6 +424,25 @@ def run_dataframe(case):
     return v, True
 
 
+def run_patchnum(case):
+    from yaw import Catalog
+
+    n, probe, c = case["n"], case["probe"], case["chunksize"]
+    d = runner.fresh_dir("c16n")
+    v = []
+    try:
+        cat = Catalog.from_random(d + "/a", make_gen("box", "wz", case["seed"]), n, patch_num=2, probe_size=probe, chunksize=c)
+    except ValueError:
+        if probe > n:
+            return [], True  # refused: a probe larger than the catalog
+        raise
+    data = catalog_records(cat)
+    if len(data) != n:
+        v.append(dict(signature="C16/patchnum/size", what=f"{len(data)} points in the catalog, {n} requested (probe of {probe}, chunksize {c})"))
+    check_points(data, "box", "wz", v, "patchnum")
+    return v, True
+
+
 def run_refrom(case):
     from yaw import AngularCoordinates, Catalog
 
@@ -438,7 +461,7 @@ def run_refrom(case):
 
 
 def run_case(case):
-    fn = dict(dataframe=run_dataframe, catalog=run_catalog, history=run_history, uniform=run_uniform, refrom=run_refrom, probe=run_probe, rows=run_rows, reseed=run_reseed)[case["part"]]
+    fn = dict(patchnum=run_patchnum, dataframe=run_dataframe, catalog=run_catalog, history=run_history, uniform=run_uniform, refrom=run_refrom, probe=run_probe, rows=run_rows, reseed=run_reseed)[case["part"]]
     viols, nontrivial = fn(case)
     res = dict(nontrivial=bool(nontrivial), key=case)
     if viols:
